@@ -59,9 +59,28 @@ static void penum_alt (int i)
       { if ((tf == 2 || tf == 4 || tf == 5) && n == 0) continue;
         A[i].n = n; A[i].sym[0] = s0; A[i].sym[1] = s1; A[i].tform = tf; A[i].k = k; A[i].cost = 5; penum_alt (i + 1); }
 }
+/* second family: AMBIGUOUS inputs with abstract nodes of different costs, so that cost pruning has provisional minima that are superseded,
+   single winners, ties, and shared sub-DAGs: 2 or 3 alternatives for one 'a' with costs from {1,2,3} in every order, flat and one level down
+   (S : P P over the input a a), one / all parses, with / without cost flag */
+static void pair_cost_family (void)
+{
+  static const int in[] = {'a', 'a', 'a'}; int c1, c2, c3, three, shape, op, co, n;
+  for (shape = 0; shape < 3; shape++) for (three = 0; three < 2; three++)
+    for (c1 = 1; c1 <= 3; c1++) for (c2 = 1; c2 <= 3; c2++) for (c3 = 1; c3 <= (three ? 3 : 1); c3++)
+      {
+        n = 0;
+        if (shape == 0) n += sprintf (text + n, "S : A # 0 | B # 0%s ;\n", three ? " | C # 0" : "");
+        else if (shape == 1) n += sprintf (text + n, "S : P P # top 1 (0 1) ;\nP : A # 0 | B # 0%s ;\n", three ? " | C # 0" : "");
+        else n += sprintf (text + n, "S : A # w 1 (0) | B # w 1 (0)%s ;\n", three ? " | C # w 2 (0)" : "");
+        n += sprintf (text + n, "A : 'a' # x %d (0) ;\nB : 'a' # y %d (0) ;\n", c1, c2);
+        if (three) n += sprintf (text + n, "C : 'a' # z %d (0) ;\n", c3);
+        for (op = 0; op < 2; op++) for (co = 0; co < 2; co++) { toks = in; ntok = shape == 1 ? 2 : 1; pair_one (op, co); }
+      }
+}
 int main (void)
 {
+  pair_cost_family ();
   for (nalt = 1; nalt <= PAIR_ALTS; nalt++) penum_alt (0);
-  printf ("CASE parse_memory_ownership %ld %s parse_free only gets blocks of this parse, once, never NULL; the tree is intact after the parse and after yaep_free_grammar; yaep_free_tree releases every block once (descriptions of <= %d alternatives, inputs of length <= %d, one/all parses, with/without cost flag)\n", pcases, pbad ? "FAIL" : "OK", PAIR_ALTS, INLEN);
+  printf ("CASE parse_memory_ownership %ld %s parse_free only gets blocks of this parse, once, never NULL; the tree is intact after the parse and after yaep_free_grammar; yaep_free_tree releases every block once (ambiguous cost family of 2-3 alternatives with costs 1..3 in every order, flat / nested / under a common node; descriptions of <= %d alternatives, inputs of length <= %d, one/all parses, with/without cost flag)\n", pcases, pbad ? "FAIL" : "OK", PAIR_ALTS, INLEN);
   return pbad != 0;
 }
